@@ -162,6 +162,13 @@ def context_property(md, t):
     return None
 
 
+# void tags (hr, br, img) in every structural neighbourhood: directly after the hidden paragraph of a tight
+# list item, first / last in containers, adjacent to each other
+VOID_DOCS = ["- item\n  ***\n", "1. item\n   ___\n2. next\n", "> - deep\n>   * * *\n", "- a  \n  b\n- ![i](s)\n  ***\n", "***\n- - -\n___\n",
+             "- ***\n- x\n  ---\n", "> ***\n\n- x\n\n  ***\n", "a  \nb\\\n![i](s)![j](t)\n***\n", "| a |\n|---|\n| ![i](s) |\n\n***\n",
+             "- - a\n    ***\n  - b\n", "1. ![i](s)\n   ***\n   ![j](t)\n"]
+
+
 def run(ctx) -> int:
     rep: Reporter = ctx["rep"]
     tier, seed, proofs = ctx["tier"], ctx["seed"], ctx["proofs"]
@@ -176,7 +183,7 @@ def run(ctx) -> int:
         if not supported(md):
             continue
         src = docs.random_doc(rng) if k % 3 else rng.choice(["```py x y\na<b\n```\n", "    code\n", "a\nb  \nc\\\nd\n", "~~~ &lt;\n~~~\n",
-                                                             "![a\nb](c)\n", "***\n"]) + docs.random_doc(rng)
+                                                             "![a\nb](c)\n", "***\n"] + VOID_DOCS) + docs.random_doc(rng)
         try:
             ts = guarded(md.parse, src)
         except Exception:  # noqa: BLE001
@@ -207,7 +214,7 @@ def run(ctx) -> int:
     def probe(r, n_opt, n_inl, n_ctx):
         for k in range(n_opt):
             cfg = configs.STANDARD[k % len(configs.STANDARD)] if k % 2 else configs.random_config(r)
-            src = docs.random_doc(r)
+            src = docs.random_doc(r) if k % 4 else r.choice(VOID_DOCS) + (docs.random_doc(r) if k % 8 else "")
             counts["options"] += 1
             d = options_property(cfg, src)
             if d:
@@ -244,7 +251,7 @@ def run(ctx) -> int:
     cov = proof_cov("C18", proofs, ["context half (same inline tokens in paragraph/heading/item/quote/cell; parseInline == paragraph) is decided by exploration on the implementation in this run; its theorems belong to the block model"])
     cov.update({
         "evaluations": len(cases) + sum(counts.values()), "distinct_nontrivial": len(set(cases)) + sum(counts.values()),
-        "rule": "renderer: parser-produced streams under standard/random configurations rendered with random (xhtmlOut, breaks, langPrefix, highlight in {none, returns '', span wrapper, <pre> block}) by implementation and model; options: token stream with each renderer-only option toggled, HTML compared modulo the option's documented place (void tag spelling; softbreak==hardbreak retyping; class value; fence-free stream under 3 highlighters); inline: parseInline/renderInline vs parse/render on single-paragraph inputs; contexts: guarded one-line texts in paragraph, heading, list item, block quote, table cell, and twice in one document",
+        "rule": "renderer: parser-produced streams under standard/random configurations incl. void tags in every structural neighbourhood (after the hidden paragraph of a tight list item, first / last in containers) rendered with random (xhtmlOut, breaks, langPrefix, highlight in {none, returns '', span wrapper, <pre> block}) by implementation and model; options: token stream with each renderer-only option toggled, HTML compared modulo the option's documented place (void tag spelling; softbreak==hardbreak retyping; class value; fence-free stream under 3 highlighters); inline: parseInline/renderInline vs parse/render on single-paragraph inputs; contexts: guarded one-line texts in paragraph, heading, list item, block quote, table cell, and twice in one document",
         "samples": inputs[:2], "traces_validated_against_impl": len(cases), "implementation_probes": counts,
         "in_kernel_cases": kn, "in_kernel_mismatches": len(kbad), "disagreements": len(disagreements),
     })
